@@ -54,6 +54,11 @@ def check(run):
     arrs = {'u8': PrefixedArray(ULInt8(''), ULInt8('')), 'u16le': PrefixedArray(ULInt8(''), ULInt16('')),
             'u16be': PrefixedArray(ULInt8(''), UBInt16('')), 'uleb': PrefixedArray(ULInt8(''), ULEB128('')),
             'until0': RepeatUntilExcluding(lambda obj, ctx: obj == 0, ULInt8(''))}
+    # the library's own length-prefixed block forms (DW_FORM_block1/2/4/block/exprloc) under the same expectations
+    blocks = {'u8': [st_le.Dwarf_dw_form['DW_FORM_block1'], st_be.Dwarf_dw_form['DW_FORM_block1']],
+              'u16le': [st_le.Dwarf_dw_form['DW_FORM_block2']], 'u16be': [st_be.Dwarf_dw_form['DW_FORM_block2']],
+              'u32le': [st_le.Dwarf_dw_form['DW_FORM_block4']], 'u32be': [st_be.Dwarf_dw_form['DW_FORM_block4']],
+              'uleb': [st_le.Dwarf_dw_form['DW_FORM_block'], st_be.Dwarf_dw_form['DW_FORM_exprloc']]}
 
     run.rule = ('cases = reachable states of spec/Prim.tla (one input byte string each; every prefix is a state too); '
                 'non-trivial = the spec expects a successful decode of at least one primitive on that input; '
@@ -62,7 +67,7 @@ def check(run):
                         'simulation up to 20 bytes over 16 byte classes',
                         'denote(): digit/group strings -> Python int is trusted (5 lines)']
 
-    cfgs = [('Prim_quick' if run.tier == 'quick' else 'Prim_thorough', None, None)]
+    cfgs = [('Prim_quick' if run.tier == 'quick' else 'Prim_thorough', None, None), ('Prim_long', None, None)]
     cfgs.append(('Prim_sim', 300 if run.tier == 'quick' else 5000, 21))
     nontriv = 0
     kinds = {}
@@ -152,7 +157,7 @@ def check(run):
                         tag = 'reserved' if e['why'] == 'reserved' else ('is64' if e['is64'] else 'len32')
                         run.mismatch('initlen.' + k, tag, {'kind': kind, 'inp': inp}, want, got)
             elif kind == 'arr':
-                for k, prim in arrs.items():
+                for k, prim in [(k, p) for k, p in arrs.items()] + [(k, p) for k, ps in blocks.items() for p in ps]:
                     e = exp[k]
                     got = _run_prim(prim, data)
                     if e['ok']:
